@@ -363,7 +363,10 @@ func TestVerifReplay(t *testing.T) {
         res = []
         for sv, w in cases:
             outo = e.new_obj([0] * 257, ('array', 'int', 257))
-            e.call(NAF, [Slice(outo, (), 0, 257, 257), e.new_slice(sv), 257, w])
+            o = e.call_outcome(NAF, [Slice(outo, (), 0, 257, 257), e.new_slice(sv), 257, w])
+            if o.kind != 'return':
+                res.append(['panic', o.panic.msg])
+                continue
             res.append([sint(x) for x in e.heap[outo][0]])
         a = [ck.rng.randrange(256) for _ in range(32)]
         b = list(a)
@@ -373,6 +376,23 @@ func TestVerifReplay(t *testing.T) {
     res, a, b = eng.explore(run_val)[0]
     ck.absorb(eng)
     rows = []
+    panics = [(sv, w, digs[1]) for (sv, w), digs in zip(cases, res[:-1]) if digs and digs[0] == 'panic']
+    if panics:
+        sv, w, msg = panics[0]
+        srcp = '''package utils
+import "testing"
+func TestVerifReplay(t *testing.T) {
+	out := make([]int, 257)
+	DecomposeNAF(out, %s, 257, %d)
+}''' % (go_bytes(sv), w)
+        okp, outp, pathp = ck.go_test('utils', srcp, name='naf_panic')
+        if okp is False:
+            ck.record('naf_panic', 'violated', 'DecomposeNAF panics for a 256-bit input with w=%d: %s' % (w, msg), sample=dict(w=w, s=hexs(sv)))
+            ck.violation('DecomposeNAF.panic', 'DecomposeNAF panics for w=%d (%s)' % (w, msg), pathp)
+        else:
+            ck.encoder_mismatch('naf_panic', (outp or '')[-200:])
+    cases = [c for c, digs in zip(cases, res[:-1]) if not (digs and digs[0] == 'panic')]
+    res = [d for d in res[:-1] if not (d and d[0] == 'panic')] + [res[-1]]
     for (sv, w), digs in zip(cases, res[:-1]):
         rows.append('{%s, %d, []int{%s}},' % (go_bytes(sv), w, ','.join(map(str, digs))))
     src = '''package utils
